@@ -3,10 +3,10 @@ LEVEL = 'model_checking'
 EXPLANATION = ('All sinks plug into one driver that never observes the sink (append/append_char return *this, ignored; C10/C11 decide what the driver emits). Byte-identical output therefore reduces to: for ARBITRARY (data, size) '
                'each sink\'s append() hands exactly those bytes -- or, for wchar_t/char16_t/char32_t streams, exactly their UTF-16/32 transcoding under the default validation -- to its stream, and for ARBITRARY (ch, count) append_char() '
                'hands over exactly count copies; the string sink (ST::format) stores the same bytes and its Latin-1 variant (ST::format_latin_1) the Latin-1->UTF-8 transcoding; inserting an ST::string into a basic_ostream hands over exactly '
-               'its contents transcoded to the stream\'s character type. fwrite/fputc/ostream::write/put/operator<<(basic_string) and std::basic_string are ENVIRONMENT: modelled as logs; native replay uses real open_memstream / ostringstream objects.')
+               'its contents transcoded to the stream\'s character type; extracting from a basic_istream stores exactly the token the stream\'s std::basic_string extraction produced (arbitrary non-whitespace units incl. NUL and malformed sequences), transcoded to UTF-8, or throws ST::unicode_error exactly for a malformed token (default validation) leaving the target unchanged. fwrite/fputc/ostream::write/put/operator<<(basic_string) and std::basic_string are ENVIRONMENT: modelled as logs; native replay uses real open_memstream / ostringstream objects.')
 BOUNDS = {'quick': 'chunks of 3 arbitrary bytes (all values, so malformed UTF-8 is included), pad count <= 3 (<= 33 for the FILE*, ostream<char>, ostream<wchar_t> and string sinks), ASCII pad character; strings of 3 bytes for insertion', 'thorough': 'chunks of 4..5 bytes'}
-OUTSIDE = 'libstdc++ stream machinery (sentry, locale, width handling), extraction operator>> (std::basic_string produced by the stream cannot be encoded), transcode(a)+transcode(b) == transcode(a+b) for chunks that split a character (the driver only splits at field boundaries)'
-ST = ('_ZNSo', '_ZNSt13basic_ostream', '_ZStls', '_ZNSt7__cxx1112basic_string', '_ZNKSt7__cxx1112basic_string', '_ZSt16__ostream_insert', '_ZNSaI', '_ZNSt9basic_ios', '_ZNKSt9basic_ios', '_ZNSt8ios_base')
+OUTSIDE = 'libstdc++ stream machinery (sentry, locale, width handling, whitespace skipping and token delimiting of operator>>(istream&, basic_string&): the token is an arbitrary environment value), transcode(a)+transcode(b) == transcode(a+b) for chunks that split a character (the driver only splits at field boundaries)'
+ST = ('_ZNSo', '_ZNSt13basic_ostream', '_ZStls', '_ZNSt7__cxx1112basic_string', '_ZNKSt7__cxx1112basic_string', '_ZSt16__ostream_insert', '_ZNSaI', '_ZNSt9basic_ios', '_ZNKSt9basic_ios', '_ZNSt8ios_base', '_ZStrs', '_ZNSi', '_ZNSt13basic_istream')
 SINKS = {1: 'stdio', 2: 'ostream_char', 3: 'ostream_wchar', 4: 'ostream_char16', 5: 'ostream_char32', 6: 'string', 7: 'string_latin1'}
 def queries():
     qs = []
@@ -18,6 +18,13 @@ def queries():
             for sk in (2, 3, 4, 5):
                 qs.append(Q('insert_%s_n%d_%s' % (SINKS[sk], n, tier), 'C17_sinks.c', 'sinks.cpp', config='small', noinline=True, stubs=ST, defs={'SINK': sk, 'OP': 2, 'N': n}, unwind=n + 4, hunwind=n + 8, heap_cap=max(4 * n + 8, 32), object_bits=10,
                             tiers=(tier,), bound={'stream': SINKS[sk], 'string bytes': n}, timeout=900 if tier == 'quick' else 3000, mem_gb=8))
+    # extraction: operator>>(basic_istream<CT>&, ST::string&) for the four character types; the stream-side std::basic_string extraction is environment
+    for tier, ns in (('quick', (1, 2, 3)), ('thorough', (4,))):
+        for n in ns:
+            for sk in (2, 3, 4, 5):
+                if tier == 'quick' and n < 3 and sk in (3, 5): continue
+                qs.append(Q('extract_%s_n%d_%s' % (SINKS[sk], n, tier), 'C17_sinks.c', 'sinks.cpp', config='small', noinline=True, stubs=ST, defs={'SINK': sk, 'OP': 3, 'N': n}, unwind=4 * n + 6, hunwind=4 * n + 8, heap_cap=max(4 * n + 8, 32), object_bits=10,
+                            tiers=(tier,), bound={'stream': SINKS[sk], 'token units': n, 'previous value of the target': '<= 5 bytes'}, timeout=900 if tier == 'quick' else 3000, mem_gb=8))
     # long runs of padding (append_char with a count up to 33: block-wise implementations go wrong at multiples of their block size)
     for sk in (1, 2, 3, 6):
         qs.append(Q('pad_run_%s' % SINKS[sk], 'C17_sinks.c', 'sinks.cpp', config='small', noinline=True, stubs=ST, defs={'SINK': sk, 'OP': 1, 'N': 1, 'CMAX': 33}, unwind=36, hunwind=40, heap_cap=192, object_bits=10,
